@@ -96,6 +96,15 @@ def _chains():
                 ops.append(["sweep"])
             ops.append(["set", 3, 1, 2] if first == 0 else ["set", 3, 0, 1])
             out.append(ops)
+    # temporaries created and discarded back to back before the instances that get related: the ids of the dead,
+    # unswept temporaries go to the new instances; a sweep in the middle of the assertions
+    for k in (1, 3, 6):
+        out.append([["churn", 0, k, 2], ["churn", 20, k, 1], ["new", 100, 2], ["new", 101, 1], ["set", 0, 100, 101],
+                    ["sweep"], ["set", 1, 100, 101], ["set", 2, 101, 100]])
+        out.append([["churn", 0, k, 1], ["new", 100, 1], ["new", 101, 1], ["new", 102, 1], ["set", 3, 100, 101],
+                    ["sweep"], ["set", 3, 101, 102]])
+        out.append([["new", 100, 1], ["churn", 0, k, 1], ["new", 101, 1], ["churn", 20, k, 1], ["new", 102, 1],
+                    ["set", 3, 101, 102], ["sweep"], ["set", 3, 100, 101]])
     for perm in itertools.permutations([(3, 2), (2, 1), (1, 0)]):
         ops = [["new", i, 1] for i in range(4)]
         ops += [["set", 3, a, b] for a, b in perm]
@@ -114,7 +123,7 @@ def generate(rng, tier, n):
         if i % 3 != 2:
             # garbage prefix (everything created in it is dropped), then assertions on new instances
             gp = _sg.Gen(rng, classes=(1, 1, 2, 3))
-            prefix = gp.history(rng.randint(3, 10), w_query=0, w_clear=0, w_sweep=0.5)
+            prefix = gp.history(rng.randint(3, 10), w_query=0, w_clear=0, w_sweep=0.5, w_churn=rng.choice([0.0, 0.5]))
             for o in list(gp.held):
                 prefix.append(["drop", o])
             if rng.random() < 0.6:
